@@ -427,7 +427,7 @@ fn run_program(prog: &Value, em: &Emit, rt: &tokio::runtime::Runtime) {
                 let (o, _) = outcome(guarded(|| rt.block_on(client.get_index_size(&endpoint, &name))));
                 steps.push(json!({"op": "get_index_size", "outcome": o}));
                 // the other places that turn an archive name / hash string into a URL
-                let rd = cascette_protocol::cdn::RangeDownloader::with_config(1, 1 << 20, std::time::Duration::from_secs(3)).expect("range downloader");
+                let rd = cascette_protocol::cdn::RangeDownloader::with_config(1, 1 << 20, std::time::Duration::from_millis(400)).expect("range downloader");
                 for with_product in [false, true] {
                     let mut ep = endpoint.clone();
                     if with_product {
@@ -505,6 +505,55 @@ fn run_program(prog: &Value, em: &Emit, rt: &tokio::runtime::Runtime) {
                 }
             }
             ev["steps"] = json!(steps);
+            ev["decoy_read"] = json!(false);
+            ev["values_ok"] = json!(true);
+        }
+        "hardlink.dest" => {
+            // HardLinkContainer::create_link / remove_file take the destination path from the caller: the
+            // container's directory joined with the key string, and - for absolute keys - also a spelling in a
+            // sibling directory whose name merely starts with the container's name (no ".." in it)
+            use cascette_client_storage::container::AccessMode;
+            use cascette_client_storage::container::hardlink::HardLinkContainer;
+            let mut steps = vec![];
+            let src_dir = sb.root.join("hl-src");
+            let tgt_dir = sb.root.join("hl-tgt");
+            std::fs::create_dir_all(&src_dir).unwrap();
+            std::fs::create_dir_all(&tgt_dir).unwrap();
+            let source = src_dir.join("source.bin");
+            std::fs::write(&source, b"SOURCE").unwrap();
+            let mut c = HardLinkContainer::new(AccessMode::ReadWrite, sb.root.clone());
+            let supported = c.test_support(&src_dir, &tgt_dir).unwrap_or(false);
+            steps.push(json!({"op": "test_support", "outcome": if supported { "ok" } else { "err" }}));
+            let mut dests = vec![sb.root.join(&keys[0])];
+            if prog["abs"].as_bool().unwrap_or(false) {
+                let body = keys[0].rsplit("/abs/").next().unwrap_or("x").to_string();
+                for sibling in [".bak", "2"] {
+                    dests.push(PathBuf::from(format!("{}{}/{}", sb.root.display(), sibling, body)));
+                }
+            }
+            // a victim file at every outside destination that can be prepared without ".." (its deletion or
+            // replacement must show); prepared before the first listing
+            for d in &dests {
+                let plain = d.is_absolute() && !d.components().any(|c| matches!(c, std::path::Component::ParentDir | std::path::Component::CurDir));
+                if plain && !d.starts_with(&sb.root) && d.starts_with(&sb.top) && d.file_name().is_some() {
+                    if let Some(parent) = d.parent() {
+                        let _ = std::fs::create_dir_all(parent);
+                    }
+                    if !d.exists() {
+                        let _ = std::fs::write(d, b"VICTIM");
+                    }
+                }
+            }
+            let before = sb.listing();
+            let key16 = [0x5Au8; 16];
+            for d in &dests {
+                let (o, _) = outcome(guarded(|| c.create_link(&key16, &source, d)));
+                steps.push(json!({"op": "create_link", "outcome": o}));
+                let (o, _) = outcome(guarded(|| c.remove_file(&key16, d)));
+                steps.push(json!({"op": "remove_file", "outcome": o}));
+            }
+            ev["steps"] = json!(steps);
+            ev["touched"] = json!(sb.diff(&before, &sb.listing()));
             ev["decoy_read"] = json!(false);
             ev["values_ok"] = json!(true);
         }
